@@ -96,52 +96,83 @@ def pairsOf (j : Json) (k : String) : Except String (List (Nat × Bool)) := do
     if a.size != 2 then throw "bad exchange entry"
     pure (← a[0]!.getNat?, ← a[1]!.getBool?))
 
-def handle (j : Json) : Except String Json := do
+/-- the problem a line asks for, with the naming of its variables -/
+def build (j : Json) : Except String ((V → String) × Prob) := do
   let n ← netOf (← j.getObjVal? "net")
   let b ← (← j.getObjVal? "build").getStr?
   let old := (j.getObjValAs? String "old").toOption.getD "old_objective"
   let nm := n.vname old
   match b with
-  | "fba" => pure (probJson nm n.fba)
-  | "fix" => pure (probJson nm (n.fixObjective (← (← j.getObjVal? "name").getStr?) (← ratOf j "t")))
-  | "pfba" => pure (probJson nm (n.pfba (← (← j.getObjVal? "name").getStr?) (← ratOf j "t")))
+  | "fba" => pure (nm, n.fba)
+  | "fix" => pure (nm, n.fixObjective (← (← j.getObjVal? "name").getStr?) (← ratOf j "t"))
+  | "pfba" => pure (nm, n.pfba (← (← j.getObjVal? "name").getStr?) (← ratOf j "t"))
   | "fvaSetup" | "fvaStep" =>
     let t ← ratOf j "t"
     let cap ← match j.getObjVal? "cap" with
       | .ok c => if c.isNull then pure none else do pure (some (← parseRat (← c.getStr?)))
       | .error _ => pure none
-    if b == "fvaSetup" then pure (probJson nm (n.fvaSetup t cap))
-    else pure (probJson nm (n.fvaStep t cap (← (← j.getObjVal? "i").getNat?) (← (← j.getObjVal? "max").getBool?)))
-  | "moma" => pure (probJson nm (n.moma (← ratsOf j "ref")))
-  | "room" => pure (probJson nm (n.room (← ratsOf j "ref") (← ratOf j "old_value") (← ratOf j "tol")
-      (← (← j.getObjVal? "linear").getBool?) (← ratOf j "delta") (← ratOf j "eps")))
-  | "cycleFree" => pure (probJson nm (n.cycleFree (← ratsOf j "fluxes") (← ratOf j "opt")))
+    if b == "fvaSetup" then pure (nm, n.fvaSetup t cap)
+    else pure (nm, n.fvaStep t cap (← (← j.getObjVal? "i").getNat?) (← (← j.getObjVal? "max").getBool?))
+  | "moma" => pure (nm, n.moma (← ratsOf j "ref"))
+  | "room" => pure (nm, n.room (← ratsOf j "ref") (← ratOf j "old_value") (← ratOf j "tol")
+      (← (← j.getObjVal? "linear").getBool?) (← ratOf j "delta") (← ratOf j "eps"))
+  | "cycleFree" => pure (nm, n.cycleFree (← ratsOf j "fluxes") (← ratOf j "opt"))
   | "mediumLinear" | "mediumMip" =>
     let ex ← pairsOf j "exch"
     let n' ← match j.getObjVal? "open" with
       | .ok c => if c.isNull then pure n else do pure (n.openExchanges ex (← parseRat (← c.getStr?)))
       | .error _ => pure n
-    if b == "mediumLinear" then pure (probJson (n'.vname old) (n'.mediumLinear ex (← ratOf j "min_obj")))
-    else pure (probJson (n'.vname old) (n'.mediumMip ex (← ratOf j "min_obj") (n'.bigM ex)))
-  | "fastcc" => pure (probJson nm (n.fastcc (← natsOf j "sub") (← ratOf j "thr") (← natsOf j "flip") (← (← j.getObjVal? "flipped").getBool?)))
-  | "reactionDeletion" => pure (probJson nm (n.reactionDeletion (← natsOf j "closed")))
+    if b == "mediumLinear" then pure (n'.vname old, n'.mediumLinear ex (← ratOf j "min_obj"))
+    else pure (n'.vname old, n'.mediumMip ex (← ratOf j "min_obj") (n'.bigM ex))
+  | "fastcc" => pure (nm, n.fastcc (← natsOf j "sub") (← ratOf j "thr") (← natsOf j "flip") (← (← j.getObjVal? "flipped").getBool?))
+  | "reactionDeletion" => pure (nm, n.reactionDeletion (← natsOf j "closed"))
   | "geneDeletion" =>
     let rules ← (← (← j.getObjVal? "rules").getArr?).toList.mapM (fun r => do
       match GPRM.fromString (← r.getStr?) with
       | .rule g => pure g
       | .malformed => throw "malformed rule")
     let ko ← (← (← j.getObjVal? "ko").getArr?).toList.mapM (fun x => x.getStr?)
-    pure (probJson nm (n.geneDeletion rules ko))
-  | "sampler" =>
-    let extra ← (← (← j.getObjVal? "extra").getArr?).toList.mapM extraOf
-    pure (samplerJson ((n.fbaWith extra).sampler (← ratOf j "tol")))
+    pure (nm, n.geneDeletion rules ko)
   | "fbaWith" =>
     let extra ← (← (← j.getObjVal? "extra").getArr?).toList.mapM extraOf
-    pure (probJson nm (n.fbaWith extra))
+    pure (nm, n.fbaWith extra)
   | "loopless" =>
     let ns ← (← (← j.getObjVal? "ns").getArr?).toList.mapM (fun r => do (← r.getArr?).toList.mapM (fun x => do parseRat (← x.getStr?)))
-    pure (probJson nm (n.loopless ns (← ratOf j "cutoff")))
+    pure (nm, n.loopless ns (← ratOf j "cutoff"))
   | _ => throw s!"unknown builder {b}"
+
+
+def denseJson (p : Prob) : Json :=
+  let d := p.toDense
+  let ob (o : Option Rat) : Json := match o with | some q => Json.str (ratStr q) | none => Json.null
+  Json.mkObj [("n", Json.num d.n), ("vb", Json.arr (d.vb.map (fun b => Json.arr #[ob b.lo, ob b.hi])).toArray),
+    ("rows", Json.arr (d.rows.map (fun r => Json.arr #[ratsJ r.1, ob r.2.lo, ob r.2.hi])).toArray), ("obj", ratsJ d.obj),
+    ("closed", Json.bool p.closedB), ("max", Json.bool p.dirMax)]
+
+def handle (j : Json) : Except String Json := do
+  let b ← (← j.getObjVal? "build").getStr?
+  if b == "sampler" then
+    let n ← netOf (← j.getObjVal? "net")
+    let extra ← (← (← j.getObjVal? "extra").getArr?).toList.mapM extraOf
+    return samplerJson ((n.fbaWith extra).sampler (← ratOf j "tol"))
+  let (nm, p) ← build j
+  match (j.getObjValAs? String "want").toOption.getD "problem" with
+  | "problem" => pure (probJson nm p)
+  | "dense" => pure (denseJson p)
+  | "cert" =>
+    -- a certificate for the problem the builder produces: accepted only through `Prob.certOpt` / `Prob.certInfeas` (soundness: Lemmas/AuxProb.lean)
+    let kind ← (← j.getObjVal? "kind").getStr?
+    if kind == "optimal" then
+      let xs ← ratsOf j "x"
+      let ys ← ratsOf j "y"
+      let ok := p.certOpt xs ys
+      pure (Json.mkObj [("ok", Json.bool ok), ("value", Json.str (ratStr (LPM.dot (p.dense p.obj) xs)))])
+    else if kind == "infeasible" then
+      pure (Json.mkObj [("ok", Json.bool (p.certInfeas (← ratsOf j "y")))])
+    else
+      -- unbounded: a feasible point and an improving ray of the dense form
+      pure (Json.mkObj [("ok", Json.bool (p.closedB && p.toDense.checkUnbdd (← ratsOf j "x") (← ratsOf j "z")))])
+  | w => throw s!"unknown request {w}"
 
 partial def loop (h : IO.FS.Stream) : IO Unit := do
   let line ← h.getLine
